@@ -93,6 +93,18 @@ CHECKS = {
         note="log capture on logger 'sqlglot' and counting wrappers on Parser.check_errors/_try_parse/raise_error are attached at run "
              "time (exit 2 if missing); inputs with internal exceptions are C05's. " + TRUST,
         design="2/C14"),
+    "C15": dict(
+        category="model_checking", engine="E4",
+        technique="process matrix: hash seeds x process histories (orders, repetitions, cold-import permutations, alone) with digest equality; order-coverage witness; reuse histories on component instances",
+        text="9.4k calls (transpile from/to many dialects, tokenize, pretty, annotate, qualify, optimize, simplify / normalize / typed "
+             "simplify incl. multi-operand connectors, lineage) are executed in fresh interpreters for 16 (thorough 64) hash seeds in "
+             "forward order, in reverse order, with every third call twice, in all 6 permutations of four cross-dialect groups of 3 "
+             "(each permutation in its own cold process: import-order effects) and alone in a fresh process; every digest must equal the "
+             "seed-0 forward cell. The evidence carries a witness of how many iteration orders of the relevant small sets the seeds "
+             "realised. All histories of length <= 3 over input menus on one reused Tokenizer / Parser / Generator / Dialect / "
+             "MappingSchema must answer like a fresh instance (3.9k histories, in two seeds).",
+        note="hash seeds are a 2^32 space; the witness, not the seed count, backs the claim. " + TRUST,
+        design="2/C15"),
     "C16": dict(
         category="exploration", engine="E1",
         technique="complete operator/function x operand-type tables and depth-2 compositions; engine typeof() as oracle",
